@@ -472,4 +472,504 @@ theorem expandFrom_exact (h : L → Bool) (sN : Bool) (nodes : List (Node L C)) 
         · refine .exp hE0 ?_
           simpa using hE
 
+section Kill
+variable {L' : Type}
+
+/-! ### hoisting: `retain` against "kill the t-th surviving leaf" -/
+
+/-- relabel the instructions of a forest -/
+def mapN (f : L → L') : List (Node L C) → List (Node L' C)
+  | [] => []
+  | .leaf l :: rest => .leaf (f l) :: mapN f rest
+  | .exp l c body :: rest => .exp (f l) c (mapN f body) :: mapN f rest
+
+/-- make the surviving leaf of rank `t` (0-based, in order) not survive -/
+def killAt (alive : L → Bool) (kill : L → L) : List (Node L C) → Nat → List (Node L C)
+  | [], _ => []
+  | .leaf l :: rest, t =>
+    if alive l then
+      if t = 0 then .leaf (kill l) :: rest else .leaf l :: killAt alive kill rest (t - 1)
+    else .leaf l :: killAt alive kill rest t
+  | .exp l c body :: rest, t =>
+    if t < (flat alive body).length then .exp l c (killAt alive kill body t) :: rest
+    else .exp l c body :: killAt alive kill rest (t - (flat alive body).length)
+
+/-- the same on a plain list of instructions -/
+def killL (alive : L → Bool) (kill : L → L) : List L → Nat → List L
+  | [], _ => []
+  | l :: r, t =>
+    if alive l then (if t = 0 then kill l :: r else l :: killL alive kill r (t - 1))
+    else l :: killL alive kill r t
+
+theorem flat_killAt (alive : L → Bool) (kill : L → L) (hk : ∀ l, alive (kill l) = false)
+    (ns : List (Node L C)) (t : Nat) :
+    flat alive (killAt alive kill ns t) = (flat alive ns).eraseIdx t := by
+  fun_induction killAt alive kill ns t with
+  | case1 => simp
+  | case2 l rest ha => simp [flat_cons_leaf, ha, hk]
+  | case3 l rest t ha ht ih =>
+    obtain ⟨t', rfl⟩ : ∃ t', t = t' + 1 := ⟨t - 1, by omega⟩
+    simp only [Nat.add_sub_cancel] at ih
+    simp [flat_cons_leaf, ha, ih]
+  | case4 l rest t ha ih => simp [flat_cons_leaf, ha, ih]
+  | case5 l c body rest t ht ih =>
+    rw [flat_cons_exp, flat_cons_exp, ih, List.eraseIdx_append_of_lt_length ht]
+  | case6 l c body rest t ht ih =>
+    rw [flat_cons_exp, flat_cons_exp, ih, List.eraseIdx_append_of_length_le (by omega)]
+
+theorem killAt_ge (alive : L → Bool) (kill : L → L) (ns : List (Node L C)) (t : Nat)
+    (h : (flat alive ns).length ≤ t) : killAt alive kill ns t = ns := by
+  fun_induction killAt alive kill ns t with
+  | case1 => rfl
+  | case2 l rest ha => simp [flat_cons_leaf, ha] at h
+  | case3 l rest t ha ht ih =>
+    simp only [flat_cons_leaf, ha, if_true, List.singleton_append, List.length_cons] at h
+    rw [ih (by omega)]
+  | case4 l rest t ha ih =>
+    simp only [flat_cons_leaf, ha, Bool.false_eq_true, if_false, List.nil_append] at h
+    rw [ih h]
+  | case5 l c body rest t ht ih =>
+    simp only [flat_cons_exp, List.length_append] at h; omega
+  | case6 l c body rest t ht ih =>
+    simp only [flat_cons_exp, List.length_append] at h
+    rw [ih (by omega)]
+
+theorem exact_weaken {alive : L → Bool} {sH sN : Bool} {off k : Nat} {ns : List (Node L C)}
+    {es : List (Entry C)} (h : Exact alive sH sN off k ns es) : Exact alive false false off k ns es := by
+  induction h with
+  | nil => exact .nil
+  | leaf _ _ ih => exact .leaf (fun h => by cases h) ih
+  | skip hn _ ih => exact .skip hn ih
+  | exp _ _ ih1 ih2 => exact .exp ih1 ih2
+
+theorem killAt_cons_dead (alive : L → Bool) (kill : L → L) (n : Node L C) (rest : List (Node L C)) (t : Nat)
+    (hn : flat alive [n] = []) : killAt alive kill (n :: rest) t = n :: killAt alive kill rest t := by
+  cases n with
+  | leaf l =>
+    have ha : alive l = false := by
+      cases h : alive l with
+      | false => rfl
+      | true => simp [flat_cons_leaf, h] at hn
+    simp [killAt, ha]
+  | exp l c body =>
+    have hb : flat alive body = [] := by simpa using hn
+    simp [killAt, hb]
+
+theorem retain_rew_before (t s : Nat) (c : C) (a b : Nat) (ns rest : List (Entry C)) (h : t < a) (hab : a ≤ b) :
+    retain t (.rew s c a b ns :: rest) =
+      if a < b then .rew s c (a - 1) (b - 1) ns :: retain t rest else retain t rest := by
+  have n1 : ¬ a ≤ t := by omega
+  have h3 : t < b := by omega
+  by_cases hlt : a < b
+  · have : a - 1 < b - 1 := by omega
+    simp [retain, n1, h, h3, hlt, this]
+  · have : ¬ a - 1 < b - 1 := by omega
+    simp [retain, n1, h, h3, hlt, this]
+
+theorem retain_rew_within (t s : Nat) (c : C) (a b : Nat) (ns rest : List (Entry C)) (h1 : a ≤ t) (h2 : t < b) :
+    retain t (.rew s c a b ns :: rest) =
+      if a < b - 1 then .rew s c a (b - 1) (retain (t - a) ns) :: retain t rest else retain t rest := by
+  have h3 : ¬ t < a := by omega
+  simp [retain, h1, h2, h3]
+
+theorem retain_rew_after (t s : Nat) (c : C) (a b : Nat) (ns rest : List (Entry C)) (h : b ≤ t) (hab : a ≤ b) :
+    retain t (.rew s c a b ns :: rest) =
+      if a < b then .rew s c a b ns :: retain t rest else retain t rest := by
+  have h3 : ¬ t < a := by omega
+  have h4 : ¬ t < b := by omega
+  simp [retain, h3, h4]
+
+/-- **`remove_target_index` is exact.** If the entries are exact (ranges only: lax about `Unmodified`)
+for a forest whose surviving output starts at `off`, then after `retain t` they are exact
+* for the same forest shifted one down, if `t` lies before it;
+* for the forest with its surviving leaf number `t - off` removed, otherwise (nothing changes if `t` lies
+  behind it, except that entries of which nothing survives disappear). -/
+theorem retain_exact (alive : L → Bool) (kill : L → L) (hk : ∀ l, alive (kill l) = false)
+    {sH sN : Bool} {off k : Nat} {ns : List (Node L C)} {es : List (Entry C)}
+    (h : Exact alive sH sN off k ns es) (hH : sH = false) (hN : sN = false) (t : Nat) :
+    (t < off → Exact alive false false (off - 1) k ns (retain t es)) ∧
+    (off ≤ t → Exact alive false false off k (killAt alive kill ns (t - off)) (retain t es)) := by
+  induction h generalizing t with
+  | nil => exact ⟨fun _ => by simpa [retain] using .nil, fun _ => by simpa [retain, killAt] using .nil⟩
+  | @leaf sH sN off k l t0 rest es hp hr ih =>
+    subst hH; subst hN
+    obtain ⟨ihA, ihB⟩ := ih rfl rfl t
+    have hret : retain t (Entry.unmod k t0 :: es) = Entry.unmod k t0 :: retain t es := by simp [retain]
+    rw [hret]
+    constructor
+    · intro ht
+      refine .leaf (fun h => by cases h) ?_
+      have := ihA (by omega)
+      have e : off - 1 + (flat alive [(Node.leaf l : Node L C)]).length
+          = off + (flat alive [(Node.leaf l : Node L C)]).length - 1 := by omega
+      rw [e]; exact this
+    · intro ht
+      by_cases ha : alive l = true
+      · have hlen : (flat alive [(Node.leaf l : Node L C)]).length = 1 := by simp [flat_cons_leaf, ha]
+        rw [hlen] at ihA ihB
+        by_cases h0 : t - off = 0
+        · have hkl : killAt alive kill (Node.leaf l :: rest) (t - off) = Node.leaf (kill l) :: rest := by
+            simp [killAt, ha, h0]
+          rw [hkl]
+          refine .leaf (fun h => by cases h) ?_
+          have hz : (flat alive [(Node.leaf (kill l) : Node L C)]).length = 0 := by
+            simp [flat_cons_leaf, hk]
+          rw [hz]
+          have := ihA (by omega)
+          simpa using this
+        · have hkl : killAt alive kill (Node.leaf l :: rest) (t - off)
+              = Node.leaf l :: killAt alive kill rest (t - (off + 1)) := by
+            have : t - off - 1 = t - (off + 1) := by omega
+            simp [killAt, ha, h0, this]
+          rw [hkl]
+          refine .leaf (fun h => by cases h) ?_
+          rw [hlen]
+          exact ihB (by omega)
+      · have ha' : alive l = false := by simpa using ha
+        have hlen : (flat alive [(Node.leaf l : Node L C)]).length = 0 := by simp [flat_cons_leaf, ha']
+        rw [hlen] at ihA ihB
+        have hkl : killAt alive kill (Node.leaf l :: rest) (t - off)
+            = Node.leaf l :: killAt alive kill rest (t - off) := by
+          simp [killAt, ha']
+        rw [hkl]
+        refine .leaf (fun h => by cases h) ?_
+        rw [hlen]
+        exact ihB (by omega)
+  | @skip sH sN off k n rest es hn hr ih =>
+    subst hH; subst hN
+    obtain ⟨ihA, ihB⟩ := ih rfl rfl t
+    constructor
+    · intro ht; exact .skip hn (ihA ht)
+    · intro ht
+      rw [killAt_cons_dead alive kill n rest _ hn]
+      exact .skip hn (ihB ht)
+  | @exp sH sN off k l c body ns0 rest es hb hr ih1 ih2 =>
+    subst hH; subst hN
+    obtain ⟨ihA, ihB⟩ := ih2 rfl rfl t
+    have hexp0 : ∀ b' : List (Node L C), flat alive b' = [] →
+        flat alive [(Node.exp l c b' : Node L C)] = [] := fun b' hb' => by simp [hb']
+    constructor
+    · intro ht
+      by_cases hm : (flat alive body).length = 0
+      · have hnil : flat alive body = [] := List.length_eq_zero_iff.mp hm
+        have hret : retain t (Entry.rew k c off (off + (flat alive body).length) ns0 :: es) = retain t es := by
+          rw [retain_rew_before _ _ _ _ _ _ _ ht (by omega), if_neg (by omega)]
+        rw [hret]
+        refine .skip (hexp0 body hnil) ?_
+        have := ihA (by omega)
+        rw [hm] at this
+        simpa using this
+      · have hret : retain t (Entry.rew k c off (off + (flat alive body).length) ns0 :: es)
+            = Entry.rew k c (off - 1) (off - 1 + (flat alive body).length) ns0 :: retain t es := by
+          rw [retain_rew_before _ _ _ _ _ _ _ ht (by omega), if_pos (by omega)]
+          have e : off + (flat alive body).length - 1 = off - 1 + (flat alive body).length := by omega
+          rw [e]
+        rw [hret]
+        refine .exp hb ?_
+        have := ihA (by omega)
+        have e : off - 1 + (flat alive body).length = off + (flat alive body).length - 1 := by omega
+        rw [e]; exact this
+    · intro ht
+      by_cases hw : t < off + (flat alive body).length
+      · -- the removed instruction lies within this expansion
+        have hkl : killAt alive kill (Node.exp l c body :: rest) (t - off)
+            = Node.exp l c (killAt alive kill body (t - off)) :: rest := by
+          simp only [killAt]; rw [if_pos (by omega)]
+        have hlen : (flat alive (killAt alive kill body (t - off))).length = (flat alive body).length - 1 := by
+          rw [flat_killAt alive kill hk, List.length_eraseIdx]
+          rw [if_pos (by omega)]
+        have hnested := (ih1 rfl rfl (t - off)).2 (Nat.zero_le _)
+        simp only [Nat.sub_zero] at hnested
+        rw [hkl]
+        by_cases hm : (flat alive body).length = 1
+        · have hret : retain t (Entry.rew k c off (off + (flat alive body).length) ns0 :: es) = retain t es := by
+            rw [retain_rew_within _ _ _ _ _ _ _ ht hw, if_neg (by omega)]
+          rw [hret]
+          have hnil : flat alive (killAt alive kill body (t - off)) = [] :=
+            List.length_eq_zero_iff.mp (by rw [hlen, hm])
+          refine .skip (hexp0 _ hnil) ?_
+          have := ihA hw
+          rw [hm] at this
+          simpa using this
+        · have hret : retain t (Entry.rew k c off (off + (flat alive body).length) ns0 :: es)
+              = Entry.rew k c off (off + ((flat alive body).length - 1)) (retain (t - off) ns0)
+                  :: retain t es := by
+            rw [retain_rew_within _ _ _ _ _ _ _ ht hw, if_pos (by omega)]
+            have e : off + (flat alive body).length - 1 = off + ((flat alive body).length - 1) := by omega
+            rw [e]
+          rw [hret, ← hlen]
+          refine .exp hnested ?_
+          rw [hlen]
+          have := ihA hw
+          have e : off + ((flat alive body).length - 1) = off + (flat alive body).length - 1 := by omega
+          rw [e]; exact this
+      · -- it lies behind this expansion
+        have hkl : killAt alive kill (Node.exp l c body :: rest) (t - off)
+            = Node.exp l c body :: killAt alive kill rest (t - (off + (flat alive body).length)) := by
+          simp only [killAt]; rw [if_neg (by omega)]
+          congr 2; omega
+        rw [hkl]
+        have hrest := ihB (by omega)
+        by_cases hm : (flat alive body).length = 0
+        · have hnil : flat alive body = [] := List.length_eq_zero_iff.mp hm
+          have hret : retain t (Entry.rew k c off (off + (flat alive body).length) ns0 :: es) = retain t es := by
+            rw [retain_rew_after _ _ _ _ _ _ _ (by omega) (by omega), if_neg (by omega)]
+          rw [hret]
+          refine .skip (hexp0 body hnil) ?_
+          simpa [hm] using hrest
+        · have hret : retain t (Entry.rew k c off (off + (flat alive body).length) ns0 :: es)
+              = Entry.rew k c off (off + (flat alive body).length) ns0 :: retain t es := by
+            rw [retain_rew_after _ _ _ _ _ _ _ (by omega) (by omega), if_pos (by omega)]
+          rw [hret]
+          exact .exp hb hrest
+
+/-! ### bookkeeping of which leaves survive -/
+
+theorem flat_eq_filter_leaves (alive : L → Bool) (ns : List (Node L C)) :
+    flat alive ns = (leaves ns).filter alive := by
+  fun_induction flat alive ns with
+  | case1 => simp [leaves]
+  | case2 l rest ha ih => rw [leaves_cons_leaf, List.filter_cons, if_pos ha, ih]
+  | case3 l rest ha ih => rw [leaves_cons_leaf, List.filter_cons, if_neg ha, ih]
+  | case4 l c body rest ih1 ih2 => rw [leaves_cons_exp, List.filter_append, ih1, ih2]
+
+theorem killL_append (alive : L → Bool) (kill : L → L) (x y : List L) (t : Nat) :
+    killL alive kill (x ++ y) t =
+      if t < (x.filter alive).length then killL alive kill x t ++ y
+      else x ++ killL alive kill y (t - (x.filter alive).length) := by
+  induction x generalizing t with
+  | nil => simp
+  | cons l r ih =>
+    by_cases ha : alive l = true
+    · by_cases h0 : t = 0
+      · subst h0; simp [killL, ha]
+      · obtain ⟨t', rfl⟩ : ∃ t', t = t' + 1 := ⟨t - 1, by omega⟩
+        simp only [List.cons_append, killL, ha, if_true, Nat.add_eq_zero_iff, Nat.succ_ne_self, and_false,
+          if_false, Nat.add_sub_cancel, List.filter_cons, List.length_cons, Nat.add_lt_add_iff_right, ih t']
+        split <;> simp
+    · have ha' : alive l = false := by simpa using ha
+      simp only [List.cons_append, killL, ha', Bool.false_eq_true, if_false, List.filter_cons, ih t]
+      split <;> simp
+
+theorem leaves_killAt (alive : L → Bool) (kill : L → L) (ns : List (Node L C)) (t : Nat) :
+    leaves (killAt alive kill ns t) = killL alive kill (leaves ns) t := by
+  fun_induction killAt alive kill ns t with
+  | case1 => simp [leaves, killL]
+  | case2 l rest ha => simp [leaves_cons_leaf, killL, ha]
+  | case3 l rest t ha ht ih => simp [leaves_cons_leaf, killL, ha, ht, ih]
+  | case4 l rest t ha ih =>
+    have ha' : alive l = false := by simpa using ha
+    simp [leaves_cons_leaf, killL, ha', ih]
+  | case5 l c body rest t ht ih =>
+    rw [leaves_cons_exp, leaves_cons_exp, ih, killL_append, ← flat_eq_filter_leaves, if_pos ht]
+  | case6 l c body rest t ht ih =>
+    rw [leaves_cons_exp, leaves_cons_exp, ih, killL_append, ← flat_eq_filter_leaves, if_neg ht]
+
+theorem flat_mapN (alive : L' → Bool) (f : L → L') (ns : List (Node L C)) :
+    flat alive (mapN f ns) = (flat (fun l => alive (f l)) ns).map f := by
+  fun_induction mapN f ns with
+  | case1 => simp
+  | case2 l rest ih => rw [flat_cons_leaf, flat_cons_leaf, ih]; split <;> simp
+  | case3 l c body rest ih1 ih2 => rw [flat_cons_exp, flat_cons_exp, ih1, ih2, List.map_append]
+
+theorem leaves_mapN (f : L → L') (ns : List (Node L C)) : leaves (mapN f ns) = (leaves ns).map f :=
+  flat_mapN (fun _ => true) f ns
+
+theorem mapN_inv (f : L → L') (g : L' → L) (hg : ∀ l, g (f l) = l) (ns : List (Node L C)) :
+    mapN g (mapN f ns) = ns := by
+  fun_induction mapN f ns with
+  | case1 => simp [mapN]
+  | case2 l rest ih => simp [mapN, hg, ih]
+  | case3 l c body rest ih1 ih2 => simp [mapN, hg, ih1, ih2]
+
+theorem mapN_killAt (alive : L → Bool) (kill : L → L) (g : L → L') (hg : ∀ l, g (kill l) = g l)
+    (ns : List (Node L C)) (t : Nat) : mapN g (killAt alive kill ns t) = mapN g ns := by
+  fun_induction killAt alive kill ns t with
+  | case1 => simp [mapN]
+  | case2 l rest ha => simp [mapN, hg]
+  | case3 l rest t ha ht ih => simp [mapN, ih]
+  | case4 l rest t ha ih => simp [mapN, ih]
+  | case5 l c body rest t ht ih => simp [mapN, ih]
+  | case6 l c body rest t ht ih => simp [mapN, ih]
+
+theorem exact_mapN (alive : L' → Bool) (f : L → L') {sH sN : Bool} {off k : Nat} {ns : List (Node L C)}
+    {es : List (Entry C)} (h : Exact (fun l => alive (f l)) sH sN off k ns es) :
+    Exact alive sH sN off k (mapN f ns) es := by
+  induction h with
+  | nil => simp only [mapN]; exact .nil
+  | @leaf sH sN off k l t rest es hp _ ih =>
+    have e : (flat alive [(Node.leaf (f l) : Node L' C)]).length
+        = (flat (fun l => alive (f l)) [(Node.leaf l : Node L C)]).length := by
+      have := flat_mapN alive f [(Node.leaf l : Node L C)]
+      simp only [mapN] at this
+      rw [this, List.length_map]
+    simp only [mapN]
+    refine .leaf hp ?_
+    rw [e]; exact ih
+  | @skip sH sN off k n rest es hn _ ih =>
+    cases n with
+    | leaf l =>
+      have := flat_mapN alive f [(Node.leaf l : Node L C)]
+      simp only [mapN] at this ⊢
+      exact .skip (by rw [this, hn]; rfl) ih
+    | exp l c body =>
+      have := flat_mapN alive f [(Node.exp l c body : Node L C)]
+      simp only [mapN] at this ⊢
+      exact .skip (by rw [this, hn]; rfl) ih
+  | @exp sH sN off k l c body ns0 rest es _ _ ih1 ih2 =>
+    have e : (flat alive (mapN f body)).length = (flat (fun l => alive (f l)) body).length := by
+      rw [flat_mapN, List.length_map]
+    simp only [mapN]
+    rw [← e]
+    refine .exp ih1 ?_
+    rw [e]; exact ih2
+
+theorem flat_congr (alive alive' : L → Bool) (ns : List (Node L C))
+    (H : ∀ l ∈ leaves ns, alive l = alive' l) : flat alive ns = flat alive' ns := by
+  rw [flat_eq_filter_leaves, flat_eq_filter_leaves]
+  exact List.filter_congr H
+
+@[simp] theorem leaves_nil : leaves ([] : List (Node L C)) = [] := by simp [leaves]
+
+theorem leaves_cons (n : Node L C) (rest : List (Node L C)) : leaves (n :: rest) = leaves [n] ++ leaves rest :=
+  flat_cons _ n rest
+
+theorem exact_congr (alive alive' : L → Bool) {sH sN : Bool} {off k : Nat} {ns : List (Node L C)}
+    {es : List (Entry C)} (h : Exact alive sH sN off k ns es) (H : ∀ l ∈ leaves ns, alive l = alive' l) :
+    Exact alive' sH sN off k ns es := by
+  induction h with
+  | nil => exact .nil
+  | @leaf sH sN off k l t rest es hp _ ih =>
+    have hl : alive l = alive' l := H l (by simp [leaves_cons_leaf])
+    have hr : ∀ x ∈ leaves rest, alive x = alive' x := fun x hx => H x (by simp [leaves_cons_leaf, hx])
+    have e := flat_congr alive alive' [(Node.leaf l : Node L C)] (fun x hx => by
+      have : x = l := by
+        rw [leaves_cons_leaf] at hx
+        simpa using hx
+      rw [this]; exact hl)
+    refine .leaf (fun hs => by rw [← hl]; exact hp hs) ?_
+    rw [← e]; exact ih hr
+  | @skip sH sN off k n rest es hn _ ih =>
+    have h1 : ∀ x ∈ leaves [n], alive x = alive' x := fun x hx => H x (by rw [leaves_cons]; simp [hx])
+    have hr : ∀ x ∈ leaves rest, alive x = alive' x := fun x hx => H x (by rw [leaves_cons]; simp [hx])
+    exact .skip (by rw [← flat_congr alive alive' [n] h1]; exact hn) (ih hr)
+  | @exp sH sN off k l c body ns0 rest es _ _ ih1 ih2 =>
+    have hb : ∀ x ∈ leaves body, alive x = alive' x := fun x hx => H x (by simp [leaves_cons_exp, hx])
+    have hr : ∀ x ∈ leaves rest, alive x = alive' x := fun x hx => H x (by simp [leaves_cons_exp, hx])
+    rw [flat_congr alive alive' body hb]
+    refine .exp (ih1 hb) ?_
+    rw [← flat_congr alive alive' body hb]; exact ih2 hr
+
+/-! ### the loop of `append_calibration_expansion_output_inner` with hoisted instructions -/
+
+theorem appendLoop_exact (h : L → Bool) (rest : List L) :
+    ∀ (n : Nat) (d : Detail C) (M : List (Node (L × Bool) C)) (done : List (L × Bool)),
+      leaves M = done ++ rest.map (fun l => (l, true)) →
+      n = (done.filter Prod.snd).length →
+      d.start = 0 → d.stop = n + rest.length →
+      Exact Prod.snd false false 0 0 M d.entries →
+      ∃ M' d', appendLoop h rest n d = (rest.filter (fun l => !h l), d') ∧
+        Exact Prod.snd false false 0 0 M' d'.entries ∧
+        leaves M' = done ++ rest.map (fun l => (l, !h l)) ∧ mapN Prod.fst M' = mapN Prod.fst M := by
+  induction rest with
+  | nil =>
+    intro n d M done hL _ _ _ hE
+    exact ⟨M, d, by simp [appendLoop], hE, by simpa using hL, rfl⟩
+  | cons l r ih =>
+    intro n d M done hL hn hs hstop hE
+    by_cases hl : h l = true
+    · -- hoisted: `remove_target_index(n)`
+      have hk : ∀ x : L × Bool, Prod.snd ((fun x : L × Bool => (x.1, false)) x) = false := fun _ => rfl
+      have hrem : d.remove n = { start := 0, stop := n + r.length, entries := retain n d.entries } := by
+        simp only [Detail.remove, hs, hstop, List.length_cons]
+        have h1 : (decide (0 ≤ n) && decide (n < n + (r.length + 1))) = true := by simp
+        rw [h1]
+        simp only [if_true, Nat.sub_zero]
+        rw [if_neg (by omega), if_pos (by omega)]
+        congr 1
+      have hE1 := (retain_exact Prod.snd (fun x : L × Bool => (x.1, false)) hk hE rfl rfl n).2 (Nat.zero_le _)
+      simp only [Nat.sub_zero] at hE1
+      have hL1 : leaves (killAt Prod.snd (fun x : L × Bool => (x.1, false)) M n)
+          = (done ++ [(l, false)]) ++ r.map (fun l => (l, true)) := by
+        rw [leaves_killAt, hL, killL_append, if_neg (by omega), hn]
+        simp [killL]
+      obtain ⟨M', d', h1, h2, h3, h4⟩ := ih n (d.remove n) _ (done ++ [(l, false)]) hL1
+        (by simp [List.filter_append, hn]) (by rw [hrem]) (by rw [hrem]) (by rw [hrem]; exact hE1)
+      refine ⟨M', d', ?_, h2, ?_, ?_⟩
+      · simp only [appendLoop, hl, if_true, List.filter_cons, Bool.not_true, Bool.false_eq_true, if_false]
+        exact h1
+      · rw [h3]; simp [hl]
+      · rw [h4]
+        exact mapN_killAt Prod.snd (fun x : L × Bool => (x.1, false)) Prod.fst (fun _ => rfl) M n
+    · have hl' : h l = false := by simpa using hl
+      obtain ⟨M', d', h1, h2, h3, h4⟩ := ih (n + 1) d M (done ++ [(l, true)])
+        (by rw [hL]; simp) (by simp [List.filter_append, hn]) hs
+        (by rw [hstop]; simp only [List.length_cons]; omega) hE
+      refine ⟨M', d', ?_, h2, ?_, h4⟩
+      · simp only [appendLoop, hl', Bool.false_eq_true, if_false, List.filter_cons, Bool.not_false, if_true]
+        rw [h1]
+      · rw [h3]; simp [hl']
+
+/-- what the loop achieves for ANY calibration body: the pushed instructions are the surviving leaves and
+all ranges (at every depth) are exact; nothing is claimed about nested `Unmodified` entries -/
+theorem appendOK_general (h : L → Bool) (body : List (Node L C)) : AppendOK h false body := by
+  have hE0 : Exact (fun _ : L => true) true true 0 0 body (expBody body 0 0).2 :=
+    expBody_exact (fun _ => true) body 0 0 (fun _ _ => rfl)
+  have hE1 : Exact Prod.snd false false 0 0 (mapN (fun l => (l, true)) body) (expBody body 0 0).2 :=
+    exact_mapN Prod.snd (fun l : L => (l, true)) (exact_weaken hE0)
+  obtain ⟨M', d', h1, h2, h3, h4⟩ := appendLoop_exact h (leaves body) 0
+    { start := 0, stop := (expBody body 0 0).1.length, entries := (expBody body 0 0).2 }
+    (mapN (fun l => (l, true)) body) []
+    (by rw [leaves_mapN]; simp) (by simp) rfl (by simp [expBody_fst]) hE1
+  refine ⟨d', ?_, ?_⟩
+  · rw [expBody_fst] at h1 ⊢
+    rw [h1, flat_eq_filter_leaves]
+  · have hc : Exact (fun x : L × Bool => !h x.1) false false 0 0 M' d'.entries := by
+      refine exact_congr Prod.snd _ h2 ?_
+      intro x hx
+      rw [h3] at hx
+      simp only [List.nil_append, List.mem_map] at hx
+      obtain ⟨l, _, rfl⟩ := hx
+      rfl
+    have hm := exact_mapN (fun l : L => !h l) (Prod.fst : L × Bool → L) hc
+    rw [h4, mapN_inv (fun l : L => (l, true)) Prod.fst (fun _ => rfl)] at hm
+    exact hm
+
+end Kill
+
+/-! ### the Bool checker for `Exact` -/
+
+theorem flat_single_dead (alive : L → Bool) (l : L) (h : alive l = false) :
+    flat alive [(Node.leaf l : Node L C)] = [] := by simp [flat_cons_leaf, h]
+
+/-- the Bool checker for `Exact` is sound -/
+theorem exactB_sound [DecidableEq C] (alive : L → Bool) (sH sN : Bool) (off k : Nat) (ns : List (Node L C))
+    (es : List (Entry C)) (h : exactB alive sH sN off k ns es = true) : Exact alive sH sN off k ns es := by
+  fun_induction exactB alive sH sN off k ns es with
+  | case1 _ _ _ _ es =>
+    have : es = [] := by simpa using h
+    subst this; exact .nil
+  | case2 sH sN off l rest s t es' ih =>
+    simp only [Bool.and_eq_true, Bool.or_eq_true, Bool.not_eq_eq_eq_not, Bool.not_true, beq_iff_eq] at h
+    refine .leaf (fun hs => ?_) (ih h.2)
+    rcases h.1 with h1 | h1
+    · rw [hs] at h1; cases h1
+    · exact h1
+  | case3 sH sN off k l rest s t es' hne ih =>
+    simp only [Bool.and_eq_true, Bool.not_eq_eq_eq_not, Bool.not_true] at h
+    exact .skip (flat_single_dead alive l h.1) (ih h.2)
+  | case4 sH sN off k l rest es hne ih =>
+    simp only [Bool.and_eq_true, Bool.not_eq_eq_eq_not, Bool.not_true] at h
+    exact .skip (flat_single_dead alive l h.1) (ih h.2)
+  | case5 sH sN off l c body rest s c' a b ns es' ih1 ih2 =>
+    simp only [Bool.and_eq_true, decide_eq_true_eq, beq_iff_eq] at h
+    obtain ⟨⟨⟨⟨rfl, rfl⟩, rfl⟩, h4⟩, h5⟩ := h
+    exact .exp (ih1 h4) (ih2 h5)
+  | case6 sH sN off k l c body rest s c' a b ns es' hne ih =>
+    simp only [Bool.and_eq_true, List.isEmpty_iff] at h
+    exact .skip h.1 (ih h.2)
+  | case7 sH sN off k l c body rest es hne ih =>
+    simp only [Bool.and_eq_true, List.isEmpty_iff] at h
+    exact .skip h.1 (ih h.2)
+
 end QV.C19
